@@ -50,7 +50,7 @@ func meta(prop, level, technique, rule string, quick, thorough int, required []s
 func init() {
 	seqTech := "deterministic simulation: seeded single-client operation sequences on the simulated disk under the cooperative scheduler; "
 	meta("C01", "exploration", seqTech+"reference-map oracle after every step",
-		NontrivialRuleText["C01"], 12000, 400000,
+		NontrivialRuleText["C01"], 16000, 400000,
 		[]string{"rotations", "writes_spanning_blocks", "writes_ending_near_boundary", "oversized_writes", "overwrites", "deletes_present", "batches", "merges", "restarts_after_merge"})
 	meta("C02", "exploration", seqTech+"restart as a generated step with an independently drawn reader configuration; dump before Close == dump after Open",
 		NontrivialRuleText["C02"], 12000, 400000,
@@ -78,26 +78,26 @@ func init() {
 		"a random overwrite that carries a valid CRC-32 by chance (2^-32) is ignored", "a zero-filled run that reaches the end of its block is indistinguishable from file pre-extension by design and is not injected", "damage to the lock file and the merge-finished marker is not injected (the property is about data and hint files)")
 	concTech := "deterministic simulation: 2..16 client tasks (real goroutines, exactly one runnable) interleaved by the seeded cooperative scheduler at every lock boundary and file call (random / sticky / PCT-style bounded-preemption policies); "
 	meta("C08", "exploration", concTech+"per-key histories stamped with global event numbers checked with porcupine against a register model; live dump at quiescence == dump after restart",
-		NontrivialRuleText["C08"], 20000, 1500000,
+		NontrivialRuleText["C08"], 25000, 1500000,
 		[]string{"sched_switches", "lock_waits", "linearizability_checks", "live_vs_restart_checks", "conc_puts", "conc_dels", "conc_gets"},
 		"porcupine time-outs (20 s per key) are counted as inconclusive and never reported")
 	meta("C09", "exploration", concTech+"the binary is built with the Go race detector and the scheduler's hand-offs are invisible to it (runtime.RaceDisable around them, vsync emitting exactly sync's annotations), so reports are data races of the engine's own synchronisation on replayable schedules; plus panics, exact deadlock detection, undocumented errors",
-		NontrivialRuleText["C09"], 6000, 400000,
+		NontrivialRuleText["C09"], 15000, 1500000,
 		[]string{"sched_switches", "lock_waits", "conc_puts", "conc_lists", "conc_folds", "conc_iter_sessions", "conc_stats", "conc_syncs", "conc_batches", "conc_merges"},
 		"ThreadSanitizer keeps four accesses per 8-byte word: a race can be missed in one schedule, many schedules compensate", "races that need truly parallel torn multi-word accesses are reported as the same race; weak-memory effects beyond the Go memory model are out of reach")
 	Metas["C09"].Race = true
 	meta("C05", "exploration", seqTech+"layered overlay model for an open batch",
-		NontrivialRuleText["C05"], 12000, 400000,
+		NontrivialRuleText["C05"], 25000, 1000000,
 		[]string{"batches", "batch_repeat_key", "batch_put_then_delete", "batch_get_from_db", "rotations"})
 	meta("C06", "exploration", seqTech+"dumps before/after Merge and after the adopting and following restarts; journal-derived layout oracle for the adopted directory",
 		NontrivialRuleText["C06"], 10000, 300000,
 		[]string{"merges", "restarts_after_merge", "adoptions_checked", "adoptions_fewer_files", "merge_dir_gone", "merge_errors", "merge_error_ErrInjected", "merge_error_ErrNoEnoughSpaceForMerge", "conc_merges"},
 		"I/O errors are injected only inside the merge side directory (the statement defines Merge's behaviour under an error; nothing defines the main data path's)")
 	meta("C10", "exploration", seqTech+"frozen sorted-slice cursor model for iterator sessions",
-		NontrivialRuleText["C10"], 12000, 400000,
+		NontrivialRuleText["C10"], 30000, 1500000,
 		[]string{"iter_sessions_multi", "iter_seeks", "iter_rewinds", "iter_nexts", "iter_interleaved_writes", "lists", "folds"})
 	meta("C13", "exploration", seqTech+"unsynced-bytes invariants of the journalled disk model evaluated at every return",
-		NontrivialRuleText["C13"], 12000, 400000,
+		NontrivialRuleText["C13"], 20000, 1000000,
 		[]string{"always_checks", "threshold_checks", "sync_batch_checks", "all_synced_checks", "rotations_checked"},
 		"for mmap files 'flushed' means covered by an msync issued after the store; msync makes the whole mapping durable")
 	meta("C14", "exploration", seqTech+"differential: one generated program executed under 2..4 configurations on separate simulated disks with the same simulated clock; transcripts (and bytes when the layout is equal) must be identical",
@@ -105,7 +105,7 @@ func init() {
 		[]string{"configs_compared", "byte_identical_layouts", "restarts", "batches", "iter_sessions", "rotations"},
 		"Stat sizes, DataFileNum and Merge's return value are excluded from the transcript when DataFileSize differs (they are layout)")
 	meta("C15", "exploration", seqTech+"hostile caller: one reused key buffer and one reused value buffer, poisoned after each return, canaries, kept Get results",
-		NontrivialRuleText["C15"], 12000, 400000,
+		NontrivialRuleText["C15"], 25000, 1000000,
 		[]string{"puts", "batch_repeat_key", "gets", "dumps"},
 		"pool-mediated aliasing is made reproducible by the deterministic LIFO replacement of sync.Pool")
 	meta("C17", "exploration", seqTech+"Stat recomputed at every step by scanning the files with the package's own reader",
@@ -119,7 +119,7 @@ func init() {
 		[]string{"opens_ok", "opens_rejected", "opens_failed_other", "closes", "rejected_open_dir_unchanged", "rejected_open_dir_unchanged_peer", "holder_token_writes", "lock_history_checks", "final_opens", "fault_damage_older_file"},
 		"flock(2) between two open file descriptions behaves the same within and across processes (the child-process party checks the cross-process half directly)", "the garbage collector is off during a run so that a leaked lock is not released by a finalizer")
 	meta("C19", "exploration", seqTech+"the data-type layer is driven with the simulated clock (TTL boundaries hit at expiry-1ns / expiry / expiry+1ns) and restarts; normalised replies vs an abstract-type reference model",
-		NontrivialRuleText["C19"], 12000, 400000,
+		NontrivialRuleText["C19"], 60000, 2000000,
 		[]string{"dt_commands", "dt_wrongtype_replies", "restarts", "expired_reads", "dt_lpop", "dt_zadd", "dt_hdel", "dt_srem"},
 		"an emptied collection keeps its type (the statement does not say it vanishes)", "a non-string command on a string that expired but was not deleted may answer as on a live string or as on an absent key")
 	meta("C20", "exploration", seqTech+"Backup as a generated step; the copy is opened while the source stays open and compared with the reference map",
